@@ -147,6 +147,10 @@ class SemantivaOrchestrator(ABC):
 
         # Compute semantic IDs BEFORE on_pipeline_start (without instantiation)
         if trace is not None:
+            # Enrich a private copy: the caller's canonical spec is shared by every
+            # run of one Pipeline object and must not pick up per-run additions.
+            canonical = dict(canonical)
+            canonical["nodes"] = [dict(n) for n in canonical.get("nodes", [])]
             pipeline_id = compute_pipeline_id(canonical)
             node_uuids = [n["node_uuid"] for n in canonical.get("nodes", [])]
             upstream_map = compute_upstream_map(canonical)
